@@ -273,6 +273,9 @@ def gen_value(ty, rng):
         return None if rng.random() < 0.3 else gen_value('Z', rng)
     if ty == 'LS':
         return [rng.choice(STR_POOL) for _ in range(rng.choice([0, 0, 1, 2, 3]))]
+    if ty == 'LZ':
+        import numpy as _np
+        return _np.array(sorted(rng.randint(0, 40) for _ in range(rng.choice([0, 1, 2, 3, 4]))), dtype=int)
     raise NotExecutable('no generator for type %s' % ty)
 
 
@@ -290,6 +293,8 @@ def coq_lit(v, ty):
         return 'None' if v is None else '(Some %s)' % coq_lit(v, ty[1])
     if ty == 'LS':
         return '[%s]' % '; '.join(T.slit(x) for x in v) if v else '(@nil string)'
+    if ty == 'LZ':
+        return '[%s]' % '; '.join('(%d)%%Z' % int(x) for x in v) if len(v) else '(@nil Z)'
     raise NotExecutable('no literal for type %s' % ty)
 
 
@@ -326,6 +331,8 @@ def canon(v, ty):
         return canon(v, ty[1])
     if ty == 'LS':
         return [canon(x, 'S') for x in v]
+    if ty == 'LZ':
+        return [canon(x, 'Z') for x in list(v)]
     raise ValueError('type %s' % ty)
 
 
@@ -348,14 +355,16 @@ def eq_term(term, exp, ty):
         return '(match %s with Some x_ => %s | None => false end)' % (term, eq_term('x_', exp, ty[1]))
     if ty == 'LS':
         return '(list_beq string String.eqb %s %s)' % (term, coq_lit(exp, 'LS'))
+    if ty == 'LZ':
+        return '(list_beq Z Z.eqb %s %s)' % (term, coq_lit(exp, 'LZ'))
     raise NotExecutable('no comparison for type %s' % ty)
 
 
 def run_spec(modname, rel, sp, tree, tr, rng, oracle_names):
-    if sp.get('yield_record') or sp.get('element') or sp.get('attr_stores'):
-        # record / single-element readings of the loop-tie extensions: the raw Python yields whole records / stores
-        # whole slices, which has no scalar stand-in here
-        raise NotExecutable('record / element reading (yield_record, element, attr_stores)')
+    if sp.get('element') or sp.get('attr_stores') or sp.get('slice_views'):
+        # single-element readings of slice stores / attribute stores / table slices: the raw Python works on whole
+        # arrays and objects, which have no scalar stand-in here
+        raise NotExecutable('element / attribute / slice-view reading (element, attr_stores, slice_views)')
     fnode = T.find_func(tree, sp['name'])
     stmts, mode = region_of(tr, fnode, sp)
     plist = []
@@ -396,6 +405,20 @@ def run_spec(modname, rel, sp, tree, tr, rng, oracle_names):
             if any(isinstance(t, ast.Subscript) and ast.unparse(t) == par
                    for a in ast.walk(ast.Module(body=stmts, type_ignores=[])) if isinstance(a, ast.Assign) for t in a.targets):
                 keys.setdefault(par, mangle(par))
+    if sp.get('yield_record'):
+        rec = sp['yield_record']
+        stmts = copy.deepcopy(stmts)
+        for x in ast.walk(ast.Module(body=stmts, type_ignores=[])):
+            if isinstance(x, ast.Yield) and x.value is not None:
+                try:
+                    x.value = ast.Tuple(elts=tr.record_fields(x.value, rec), ctx=ast.Load())
+                except T.Refuse as e:
+                    raise NotExecutable('yield_record: %s' % e)
+            elif isinstance(x, ast.Call) and isinstance(x.func, ast.Name) and x.func.id == 'yield_append__':
+                try:
+                    x.args = [ast.Tuple(elts=tr.record_fields(x.args[0], rec), ctx=ast.Load())]
+                except T.Refuse as e:
+                    raise NotExecutable('yield_record: %s' % e)
     body = [Pow2().visit(Subst(keys).visit(copy.deepcopy(s))) for s in stmts]
     # round trip through source text: unshares nodes the desugaring reuses and restores Load / Store contexts
     body = [x for st in body for x in ast.parse(ast.unparse(ast.fix_missing_locations(st))).body]
@@ -414,17 +437,20 @@ def run_spec(modname, rel, sp, tree, tr, rng, oracle_names):
     pre = []
     for k, t, term in sp.get('init', []):
         nk = ast.unparse(ast.parse(k, mode='eval').body)
-        val = {'""%string': "''", '(inject_Z 0)': '0.0', '0': '0'}.get(term)
+        val = {'""%string': "''", '(inject_Z 0)': '0.0', '0': '0', 'None': 'None'}.get(term)
         if val is None:
             raise NotExecutable('init term %s' % term)
         pre.append(ast.parse('%s = %s' % (keys.get(nk, nk if nk.isidentifier() else mangle(nk)), val)).body[0])
         keys.setdefault(nk, nk if nk.isidentifier() else mangle(nk))
+    ay = sp.get('append_yields')
+    if ay:
+        pre.append(ast.parse('%s = []' % ay).body[0])
     if mode == 'loop':
         loop = ast.parse('for _once in (0,):\n    pass\nelse:\n    _st["brk"] = False\n').body[0]
         loop.body = body or [ast.Pass()]
         tail = ast.parse('_st["locals"] = dict(locals())').body[0]
         fn.body = pre + [ast.parse('_st["brk"] = True').body[0], loop, tail]
-        if not ytypes:
+        if not ytypes or ay:
             fn.body.append(ast.parse('return None').body[0])
     elif mode == 'fragment':
         tail = ast.parse('_st["locals"] = dict(locals())').body[0]
@@ -544,7 +570,9 @@ def run_spec(modname, rel, sp, tree, tr, rng, oracle_names):
                 _lg.disable(_lg.CRITICAL)
                 out = region(*args)
                 if ytypes and mode == 'loop':
-                    out = list(out)
+                    out = list(out) if out is not None else []
+                    if ay:
+                        out = list(_st['locals'][ay])
                 got = ('ok', out)
                 break
             except (ZeroDivisionError, AssertionError, ValueError, OverflowError) as e:
